@@ -509,6 +509,18 @@ def extract_wire(errors):
         L.append(f"def lenPrefixBytes : Nat := {m3.group(1)}")
         short_eof = bool(re.search(r"if len\(d\) != %s:\s+raise EOFError\(\)" % m3.group(1), r))
         L.append(f"def shortLengthIsEof : Bool := {lbool(short_eof)}")
+        # `read`, statement by statement: one read for the length prefix, ONE read of exactly `size` bytes for the body
+        rdef = find_def(st, "read", cls="RecordStreamReader")
+        flat_ = []
+        for s_ in rdef.body:
+            if isinstance(s_, ast.Expr) and isinstance(s_.value, ast.Constant):
+                continue
+            if isinstance(s_, ast.If) and not s_.orelse:
+                flat_.append("if " + src(s_.test) + ":")
+                flat_ += ["  " + src(b_) for b_ in s_.body]
+            else:
+                flat_.append(src(s_).replace("\n", " ; "))
+        L.append("def readerReadBody : List String := " + llist(lstr(x) for x in flat_))
         rh = src(find_def(st, "readheader", cls="RecordStreamReader"))
         L.append("def headerReadLen : String := "
                  + lstr(re.search(r"self\.fp\.read\((.*?)\)\n", rh).group(1)))
